@@ -420,8 +420,8 @@ def run(tier, pid="C11"):
         jobs.append(("sd_mcB.cfg", {}, False))
         jobs.append(("sd_expD3.cfg", {}, True))
         jobs.append(("sd_expF3.cfg", {}, True))
-        jobs.append(("sd_simR.cfg", dict(simulate=dict(num=2500, depth=14), seed=rep.seed + 11), True))
-        jobs.append(("sd_simR.cfg", dict(simulate=dict(num=2500, depth=14), seed=rep.seed + 12), True))
+        jobs.append(("sd_simR.cfg", dict(simulate=dict(num=1500, depth=14), seed=rep.seed + 11), True))
+        jobs.append(("sd_simR.cfg", dict(simulate=dict(num=1500, depth=14), seed=rep.seed + 12), True))
     for cfg, kw, do_replay in jobs:
         r = tlc.run_tlc("stream", "MCStreamDecor", cfg, coverage=True, timeout=1500, workers=8, **kw)
         tlc.require_ok(r, "C11 " + cfg)
